@@ -1,33 +1,389 @@
 //! Conformance harness for property C06 (parser totality, print/re-parse),
 //! see /verif/DESIGN.md section 6 and spec/Syntax.tla.
+//!
+//! replay : spec -> impl.  Every line {toks, exp, tree, canon} printed by TLC
+//!          is rendered (plain + seeded variations), parsed by the real
+//!          parser, compared with the tree the spec prescribes, printed,
+//!          re-parsed; optionally token mutations are recorded for
+//!          Trace_Syntax (impl -> spec).
+//! corpus : every script of the scripted-test corpus (whole files and the
+//!          scripts embedded in them as here-documents).
+//! soup   : seeded random byte / Unicode / shell-character strings.
+mod render;
 mod run;
 mod tree;
+mod worker;
+
+use rand::rngs::StdRng;
+use rand::{Rng, SeedableRng};
+use render::Tok;
+use serde_json::{Value, json};
+use std::io::{BufRead, Write};
+use yvcommon::util::{opt, opt_usize, open_in, open_out, seed};
+
+fn record(kind: &str, id: &str, toks: Value, a: &run::Analysis, with_tree: bool) -> Value {
+    json!({"kind": kind, "id": id, "toks": toks, "out": a.out,
+           "tree": if with_tree && a.out == "ok" { a.tree.clone() } else { json!([]) },
+           "rt": a.rt, "pulled": a.pulled, "needed": a.needed, "ahead": a.ahead})
+}
+
+fn fail(out: &mut dyn Write, what: &str, line: usize, variant: usize, text: &str, a: &run::Analysis, extra: Value) {
+    let v = json!({"fail": what, "line": line, "variant": variant, "text": text, "out": a.out, "detail": a.detail,
+                   "printed": a.printed, "rt": a.rt, "rt_detail": a.rt_detail, "ahead": a.ahead,
+                   "pulled": a.pulled, "needed": a.needed, "extra": extra});
+    writeln!(out, "{v}").unwrap();
+}
+
+/// Checks that hold for every input whatever the spec says: totality,
+/// read-ahead bound, print/re-parse of every tree produced.
+fn generic_checks(out: &mut dyn Write, line: usize, variant: usize, text: &str, a: &run::Analysis) -> bool {
+    let mut ok = true;
+    if a.out == "panic" || a.out == "timeout" {
+        fail(out, "totality", line, variant, text, a, json!(null));
+        ok = false;
+    }
+    if a.ahead > 1 {
+        fail(out, "readahead", line, variant, text, a, json!(null));
+        ok = false;
+    }
+    if matches!(a.rt, "ne" | "err" | "panic") {
+        fail(out, "roundtrip", line, variant, text, a, json!(null));
+        ok = false;
+    }
+    ok
+}
+
+fn replay(args: &[String]) -> i32 {
+    yvcommon::util::quiet_panics();
+    let variants = opt_usize(args, "--variants", 2);
+    let mutants = opt_usize(args, "--mutants", 0);
+    let mut mut_out: Option<Box<dyn Write>> = opt(args, "--mut-out").map(|p| {
+        Box::new(std::io::BufWriter::new(std::fs::File::create(p).expect("create --mut-out"))) as Box<dyn Write>
+    });
+    let input = open_in(args);
+    let mut out = open_out(args);
+    let mut w = worker::Worker::new(10_000);
+    let s = seed();
+    let (mut lines, mut cases, mut exp_ok, mut exp_err, mut exp_un) = (0usize, 0usize, 0usize, 0usize, 0usize);
+    let (mut impl_ok_spec_err, mut canon_drift, mut canon_cmp, mut rt_checked, mut muts) = (0usize, 0, 0, 0, 0);
+    let mut samples: Vec<Value> = Vec::new();
+    let mut drift_samples: Vec<Value> = Vec::new();
+    for (ln, l) in input.lines().enumerate() {
+        let l = l.expect("read");
+        if l.trim().is_empty() {
+            continue;
+        }
+        let v: Value = match serde_json::from_str(&l) {
+            Ok(v) => v,
+            Err(e) => {
+                eprintln!("bad input line {ln}: {e}");
+                return 2;
+            }
+        };
+        lines += 1;
+        let toks: Vec<Tok> = v["toks"].as_array().map(|a| a.iter().map(Tok::from_wire).collect()).unwrap_or_default();
+        let exp = v["exp"].as_str().unwrap_or("un");
+        match exp {
+            "ok" => exp_ok += 1,
+            "err" => exp_err += 1,
+            _ => exp_un += 1,
+        }
+        for variant in 0..variants.max(1) {
+            let mut rng = StdRng::seed_from_u64(s ^ ((ln as u64) << 8) ^ (variant as u64) ^ 0xC06);
+            let text = render::render(&toks, &mut rng, variant == 0);
+            let a = w.analyse(&text, false);
+            cases += 1;
+            generic_checks(&mut *out, ln, variant, &text, &a);
+            if a.rt == "eq" {
+                rt_checked += 1;
+            }
+            if exp == "ok" {
+                if a.out != "ok" {
+                    if a.out == "err" {
+                        fail(&mut *out, "rejected", ln, variant, &text, &a, json!({"expected": v["tree"]}));
+                    }
+                } else if a.tree != v["tree"] {
+                    fail(&mut *out, "tree", ln, variant, &text, &a, json!({"expected": v["tree"], "got": a.tree}));
+                }
+            } else if a.out == "ok" && exp == "err" {
+                impl_ok_spec_err += 1;
+            }
+            // canonical form: what the real printer writes, token by token
+            if variant == 0 && exp == "ok" && a.out == "ok" && v.get("canon").is_some() {
+                let printed = a.printed.join("; ");
+                if let Ok(t) = run::tokenize(&printed) {
+                    canon_cmp += 1;
+                    let canon: Vec<String> =
+                        v["canon"].as_array().unwrap().iter().map(|x| x.as_str().unwrap_or("").to_string()).collect();
+                    // the single-line form has no here-document bodies; command lines are joined by `;`
+                    let t: Vec<String> = t.into_iter().filter(|x| x != "\n").collect();
+                    if a.nhd == 0 && a.ncmd == 1 && t != canon {
+                        canon_drift += 1;
+                        if drift_samples.len() < 5 {
+                            drift_samples.push(json!({"printed": printed, "canon": canon}));
+                        }
+                    }
+                }
+            }
+            if samples.len() < 6 && (ln % 997 == 3) && variant == 1 {
+                samples.push(json!({"text": text, "out": a.out, "printed": a.printed, "rt": a.rt}));
+            }
+        }
+        // impl -> spec: mutations of the derivation, judged by Trace_Syntax
+        if let Some(mo) = mut_out.as_mut() {
+            let mut rng = StdRng::seed_from_u64(s ^ ((ln as u64) << 8) ^ 0xBEEF);
+            for m in 0..mutants {
+                // concretise: sep -> `;` or newline, lb -> nothing or newline
+                let mut conc: Vec<Tok> = Vec::new();
+                for t in &toks {
+                    let nl = || Tok::from_wire(&json!({"k": "op", "s": "\n"}));
+                    if t.v == "lb" {
+                        if rng.gen_range(0..4) == 0 {
+                            conc.push(nl());
+                        }
+                    } else if t.v == "sep" {
+                        if rng.gen_range(0..3) == 0 {
+                            conc.push(nl());
+                        } else {
+                            conc.push(Tok::from_wire(&json!({"k": "op", "s": ";"})));
+                        }
+                    } else {
+                        conc.push(t.clone());
+                    }
+                }
+                if conc.len() < 2 {
+                    break;
+                }
+                // positions that are not part of a here-document operator/delimiter pair
+                let free: Vec<usize> = (0..conc.len())
+                    .filter(|&i| !conc[i].is_here_op() && !(i > 0 && conc[i - 1].is_here_op()))
+                    .collect();
+                if free.is_empty() {
+                    break;
+                }
+                let i = free[rng.gen_range(0..free.len())];
+                match (m + rng.gen_range(0..3)) % 3 {
+                    0 => {
+                        conc.remove(i);
+                    }
+                    1 => {
+                        let j = free[rng.gen_range(0..free.len())];
+                        conc.swap(i, j);
+                    }
+                    _ => {
+                        let t = conc[free[rng.gen_range(0..free.len())]].clone();
+                        conc.insert(i, t);
+                    }
+                }
+                // a glued token must stay glued to an operator; otherwise the text is another token sequence
+                let text = render::render(&conc, &mut rng, m % 2 == 0);
+                let a = w.analyse(&text, false);
+                cases += 1;
+                muts += 1;
+                let wire: Vec<Value> = conc.iter().map(|t| t.wire.clone()).collect();
+                let mut r = record("toks", &format!("m{ln}.{m}"), Value::Array(wire), &a, true);
+                r["text"] = json!(text);
+                writeln!(mo, "{r}").unwrap();
+            }
+        }
+    }
+    let summary = json!({"summary": true, "lines": lines, "cases": cases, "exp_ok": exp_ok, "exp_err": exp_err,
+        "exp_un": exp_un, "impl_ok_spec_err": impl_ok_spec_err, "canon_compared": canon_cmp,
+        "canon_drift": canon_drift, "drift_samples": drift_samples, "rt_checked": rt_checked,
+        "mutants": muts, "timeouts": w.timeouts, "samples": samples});
+    writeln!(out, "{summary}").unwrap();
+    0
+}
+
+/// Scripts embedded in a scripted-test file as here-documents `<<\__IN__`.
+fn embedded_scripts(src: &str) -> Vec<String> {
+    let mut out = Vec::new();
+    let mut cur: Option<(String, bool, String)> = None; // (delimiter, strip tabs, text)
+    for line in src.split_inclusive('\n') {
+        if let Some((d, tabs, text)) = cur.as_mut() {
+            let l = line.strip_suffix('\n').unwrap_or(line);
+            let l2 = if *tabs { l.trim_start_matches('\t') } else { l };
+            if l2 == d {
+                out.push(std::mem::take(text));
+                cur = None;
+            } else {
+                text.push_str(if *tabs { line.trim_start_matches('\t') } else { line });
+            }
+            continue;
+        }
+        if let Some(p) = line.find("<<") {
+            let rest = &line[p + 2..];
+            let (tabs, rest) = match rest.strip_prefix('-') {
+                Some(r) => (true, r),
+                None => (false, rest),
+            };
+            let rest = rest.trim_start();
+            let rest = rest.trim_start_matches(['\\', '\'', '"']);
+            let d: String = rest.chars().take_while(|c| c.is_ascii_alphanumeric() || *c == '_').collect();
+            if d.starts_with("__") && d.ends_with("__") && d.len() > 4 {
+                cur = Some((d, tabs, String::new()));
+            }
+        }
+    }
+    out
+}
+
+fn corpus(args: &[String]) -> i32 {
+    yvcommon::util::quiet_panics();
+    let dir = opt(args, "--dir").expect("--dir");
+    let mut out = open_out(args);
+    let mut fails = opt(args, "--fails").map(|p| std::fs::File::create(p).expect("create --fails"));
+    let mut w = worker::Worker::new(60_000);
+    let mut files: Vec<_> = std::fs::read_dir(dir)
+        .expect("read --dir")
+        .filter_map(|e| e.ok())
+        .map(|e| e.path())
+        .filter(|p| p.extension().is_some_and(|e| e == "sh"))
+        .collect();
+    files.sort();
+    let mut n = 0usize;
+    for f in &files {
+        let src = match std::fs::read_to_string(f) {
+            Ok(s) => s,
+            Err(_) => String::from_utf8_lossy(&std::fs::read(f).unwrap()).into_owned(),
+        };
+        let name = f.file_name().unwrap().to_string_lossy().into_owned();
+        let mut inputs = vec![(name.clone(), src.clone())];
+        for (i, s) in embedded_scripts(&src).into_iter().enumerate() {
+            inputs.push((format!("{name}#{i}"), s));
+        }
+        for (id, text) in inputs {
+            for portable in [false, true] {
+                let a = w.analyse(&text, portable);
+                n += 1;
+                let id = if portable { format!("{id}@portable") } else { id.clone() };
+                let r = record("text", &id, json!([]), &a, false);
+                writeln!(out, "{r}").unwrap();
+                if let Some(ff) = fails.as_mut() {
+                    let mut buf: Vec<u8> = Vec::new();
+                    if !generic_checks(&mut buf, n, portable as usize, &text, &a) {
+                        ff.write_all(&buf).unwrap();
+                    }
+                }
+            }
+        }
+    }
+    eprintln!("corpus: {} files, {} inputs", files.len(), n);
+    0
+}
+
+fn soup_string(rng: &mut StdRng) -> String {
+    const SHELLY: &[&str] = &[
+        "'", "\"", "`", "$", "$(", "$((", "${", "}", ")", "))", "(", "{", "\\", "\n", " ", "\t", ";", ";;", "&", "&&", "|",
+        "||", "<", ">", "<<", "<<-", ">>", "<&", ">|", "<>", "<<<", "#", "~", "=", ":", "-", "+", "?", "%", "!", "*", "a",
+        "x", "1", "2", "if", "then", "else", "elif", "fi", "for", "in", "do", "done", "while", "until", "case", "esac",
+        "function", "[[", "]]", "$'", "\\c", "\\x", "\\u", "\\0", "EOF", "\u{a0}", "\u{3000}", "\r", "\u{0}", "é", "𝄞",
+    ];
+    let n = rng.gen_range(0..40);
+    let mut s = String::new();
+    match rng.gen_range(0..4) {
+        0 => {
+            // arbitrary bytes, lossily decoded
+            let b: Vec<u8> = (0..n).map(|_| rng.r#gen::<u8>()).collect();
+            s = String::from_utf8_lossy(&b).into_owned();
+        }
+        1 => {
+            // arbitrary Unicode scalar values
+            for _ in 0..n {
+                let c = loop {
+                    let x = rng.gen_range(0..0x11_0000u32);
+                    if let Some(c) = char::from_u32(x) {
+                        break c;
+                    }
+                };
+                s.push(if rng.gen_range(0..3) == 0 { (rng.gen_range(0..128u8)) as char } else { c });
+            }
+        }
+        _ => {
+            for _ in 0..n {
+                s.push_str(SHELLY[rng.gen_range(0..SHELLY.len())]);
+                if rng.gen_range(0..3) == 0 {
+                    s.push(' ');
+                }
+            }
+        }
+    }
+    s
+}
+
+fn soup(args: &[String]) -> i32 {
+    yvcommon::util::quiet_panics();
+    let n = opt_usize(args, "--n", 1000);
+    let mut out = open_out(args);
+    let mut fails = opt(args, "--fails").map(|p| std::fs::File::create(p).expect("create --fails"));
+    let mut w = worker::Worker::new(10_000);
+    let mut rng = StdRng::seed_from_u64(seed() ^ 0x50_u64);
+    for i in 0..n {
+        let text = soup_string(&mut rng);
+        let portable = i % 4 == 3;
+        let a = w.analyse(&text, portable);
+        let r = record("text", &format!("s{i}"), json!([]), &a, false);
+        writeln!(out, "{r}").unwrap();
+        if let Some(ff) = fails.as_mut() {
+            let mut buf: Vec<u8> = Vec::new();
+            if !generic_checks(&mut buf, i, portable as usize, &text, &a) {
+                ff.write_all(&buf).unwrap();
+            }
+        }
+    }
+    0
+}
 
 fn probe(args: &[String]) -> i32 {
     yvcommon::util::quiet_panics();
     let portable = args.iter().any(|a| a == "--portable");
+    let mut w = worker::Worker::new(10_000);
     for t in args.iter().filter(|a| !a.starts_with("--")) {
         let t = t.replace("\\n", "\n");
-        let a = run::analyse(&t, portable);
+        let a = w.analyse(&t, portable);
         println!(
             "{}",
-            serde_json::json!({"in": t, "out": a.out, "detail": a.detail, "printed": a.printed, "rt": a.rt,
-                "rt_detail": a.rt_detail, "pulled": a.pulled, "needed": a.needed, "ahead": a.ahead, "tree": a.tree,
-                "tokens": a.printed.first().map(|p| run::tokenize(p).unwrap_or_default())})
+            json!({"in": t, "out": a.out, "detail": a.detail, "printed": a.printed, "rt": a.rt,
+                "rt_detail": a.rt_detail, "pulled": a.pulled, "needed": a.needed, "ahead": a.ahead, "tree": a.tree})
         );
     }
     0
 }
 
+/// Re-runs one recorded failing text (for `./check C06 --replay F`).
+fn redo(args: &[String]) -> i32 {
+    yvcommon::util::quiet_panics();
+    let p = opt(args, "--in").expect("--in");
+    let v: Value = serde_json::from_str(&std::fs::read_to_string(p).expect("read")).expect("json");
+    let text = v["text"].as_str().unwrap_or("");
+    let portable = v["variant"].as_u64() == Some(1) && v["portable"].as_bool() == Some(true);
+    let mut w = worker::Worker::new(10_000);
+    let a = w.analyse(text, portable);
+    let mut buf: Vec<u8> = Vec::new();
+    let mut ok = generic_checks(&mut buf, 0, 0, text, &a);
+    if let Some(exp) = v["extra"].get("expected") {
+        if a.out != "ok" || &a.tree != exp {
+            ok = false;
+        }
+    }
+    println!("{}", json!({"ok": ok, "out": a.out, "detail": a.detail, "rt": a.rt, "rt_detail": a.rt_detail,
+                          "printed": a.printed, "ahead": a.ahead}));
+    if ok { 0 } else { 1 }
+}
+
 fn main() {
     let args: Vec<String> = std::env::args().collect();
     if args.len() < 2 {
-        eprintln!("usage: yv-c06 <probe|replay|record|...> ...");
+        eprintln!("usage: yv-c06 <replay|corpus|soup|probe|redo> ...");
         std::process::exit(2);
     }
     let rest = &args[2..];
     let code = match args[1].as_str() {
+        "replay" => replay(rest),
+        "corpus" => corpus(rest),
+        "soup" => soup(rest),
         "probe" => probe(rest),
+        "redo" => redo(rest),
         other => {
             eprintln!("unknown subcommand {other}");
             2
